@@ -10,7 +10,8 @@ use crate::sup::RunResult;
 // family order: construct binop assign scalar shift mutate power integer checked export detour convert
 
 fn lens_c04(rng: &mut Prng, thorough: bool) -> Vec<(usize, usize, u32)> {
-    match rng.below(if thorough { 6 } else { 5 }) {
+    let pick = if thorough { rng.below(6) } else if rng.chance(1, 25) { 5 } else { rng.below(5) };
+    match pick {
         0 => vec![(0, 6, 1)],
         1 => vec![(0, 24, 1)],
         2 => vec![(8, 22, 3), (0, 4, 1)],     // around the 5-digit asm block (10 words)
@@ -67,7 +68,8 @@ pub fn exec_c04(plan: &Plan) -> RunResult {
 pub fn gen_c14h(rng: &mut Prng, plan: &mut Plan) {
     let thorough = plan.tier == "thorough";
     // lengths in 32-bit words; thresholds are in 64-bit digits: 5 (asm block), 32/33, 64, 256/257
-    let lens = match rng.below(if thorough { 7 } else { 6 }) {
+    let pick = if thorough { rng.below(7) } else if rng.chance(1, 20) { 6 } else { rng.below(6) };
+    let lens = match pick {
         0 => vec![(0, 14, 1)],
         1 => vec![(8, 12, 2), (18, 22, 2), (28, 32, 1), (0, 4, 1)],
         2 => vec![(60, 70, 3), (120, 134, 2), (2, 8, 1)],
@@ -319,7 +321,9 @@ pub fn exec_c14f(plan: &Plan) -> RunResult {
 pub fn gen_c15(rng: &mut Prng, plan: &mut Plan) {
     let thorough = plan.tier == "thorough";
     // lengths in 32-bit words; every residue of both operand lengths mod 5 native digits up to 5k+4
-    let lens = match rng.below(6) {
+    let pick = if rng.chance(1, if thorough { 8 } else { 25 }) { 6 } else { rng.below(6) };
+    let lens = match pick {
+        6 => vec![(508, 524, 2), (250, 262, 1), (8, 12, 1)], // Toom-3 / Karatsuba recursion at digit offsets
         0 => vec![(0, 20, 1)],
         1 => vec![(8, 12, 2), (18, 22, 2), (28, 32, 2), (38, 50, 1), (0, 6, 1)],
         2 => vec![(9, 10, 2), (19, 20, 2), (29, 30, 1), (1, 8, 1)], // exactly 5k digits
@@ -330,8 +334,8 @@ pub fn gen_c15(rng: &mut Prng, plan: &mut Plan) {
     let p = Profile {
         // construct binop assign scalar shift mutate power integer checked export detour convert
         weights: [6, 20, 14, 8, 3, 4, 3, 8, 3, 10, 4, 2],
+        steps: if lens.iter().any(|l| l.1 > 200) { (4, 12) } else { (6, 30) },
         lens,
-        steps: (6, 30),
         unsafe_permille: if rng.chance(1, 3) { 150 } else { 0 },
         std_only: true,
         text_heavy: true,
